@@ -124,6 +124,11 @@ def check_variance_update(P, R, key="gmm:ml_gmm_m_step"):
         if cross:
             ok = all(s_ == -1 for s_, a in cross) and sq and all(s_ == 1 for s_, a in sq)
             R.check(ok, "POL.ml-variance", key, what, "centred second moment: E[x^2] - 2 m E[x] + m^2", f"centred form with wrong signs: {pol.fmt_terms(cross + sq)}", st.lineno)
+            pc = pol.Pol(P, f, track_coef=True)
+            tc = [x for x in dict.fromkeys(pc.terms(v, cst))]
+            crossc = [x for x in tc if has(x[1], [f"{sp}.sum_px"]) and has(x[1], [f"{mp}.means", f"{mp}._means"]) and not has(x[1], [f"{sp}.sum_pxx"])]
+            secc = [x for x in tc if has(x[1], [f"{sp}.sum_pxx"])]
+            R.check(all(sorted(a_ for a_ in x[1] if a_.startswith("#")) == ["#2"] for x in crossc) and all(not any(a_.startswith("#") for a_ in x[1]) for x in secc), "POL.ml-variance-coef", key, what, "E[x^2] - 2 m E[x] + m^2", f"the centred second moment has the wrong literal coefficients: {pol.fmt_terms(crossc + secc)}", st.lineno)
             continue
         if not sq or any(s_ != -1 for s_, a in sq):
             R.violation("POL.ml-variance", key, what, f"the squared mean is not subtracted from the second moment: {pol.fmt_terms(sq) or 'missing'}", st.lineno)
